@@ -26,6 +26,9 @@
 #ifndef FS_MAX
 #define FS_MAX 4
 #endif
+#ifndef FS_RANGE
+#define FS_RANGE 2
+#endif
 #define VF_MAXM (FS_MAX + 4)
 #include "common.hpp"
 #include <optional>
@@ -145,6 +148,7 @@ struct Ctx {
     ps = ::new (static_cast<void *>(buf)) FS(m.c);
     Seq q;
     vf::BuildK<VCfg, FS_KIND>::run(vec_of(*ps), q, cls);
+    vf_assume(q.n <= FS_MAX);
     for (unsigned i = 0; i < VF_MAXM; ++i) {
       if (i >= q.n) break;
       vf_assume(q.a[i] < FS_KEYS);
@@ -214,7 +218,12 @@ OP(emplace) {
 // C12: a hint is only a hint
 OP(insert_hint) {
   Ctx c; c.setup(FS_CLS);
-  K v = ndkey(); uint8_t h = nd8(static_cast<uint8_t>(c.m.count())); uint8_t form = nd8(2);
+  K v = ndkey(); uint8_t h = nd8(static_cast<uint8_t>(c.m.count()));
+#ifdef FS_FORM
+  const uint8_t form = FS_FORM;     // partitioned: one query per overload
+#else
+  uint8_t form = nd8(2);
+#endif
   unsigned n0 = c.m.count();
   bool correct = h == c.m.rank(c.m.cls(v));     // hint designates the position the value belongs at
   g_cmp = 0;
@@ -236,17 +245,20 @@ OP(insert_hint) {
 }
 OP(insert_range) {
   Ctx c; c.setup(FS_CLS);
-  K in[3]; uint8_t n = nd8(3);
-  for (unsigned i = 0; i < 3; ++i) in[i] = ndkey();
-  bool il = nd8(1);
-  if (il) { if (n == 2) c.s().insert({in[0], in[1]}); else { n = 0; c.s().insert(std::initializer_list<K>()); } }
-  else c.s().insert(static_cast<const K *>(in), static_cast<const K *>(in + n));
-  for (unsigned i = 0; i < 3; ++i) { if (i >= n) break; c.m.insert(in[i]); }
-  c.check(false);            // which of several equivalent NEW keys survives is left open; old ones must survive:
+  K in[FS_RANGE + 1]; uint8_t n = nd8(FS_RANGE);
+  for (unsigned i = 0; i < FS_RANGE + 1; ++i) in[i] = ndkey();
+#ifdef FS_IL
+  if (n == 2) c.s().insert({in[0], in[1]}); else { n = 0; c.s().insert(std::initializer_list<K>()); }
+#else
+  c.s().insert(static_cast<const K *>(in), static_cast<const K *>(in + n));
+#endif
+  SetM before = c.m;
+  for (unsigned i = 0; i < FS_RANGE; ++i) { if (i >= n) break; c.m.insert(in[i]); }
+  c.check(false);            // which of several mutually equivalent NEW keys survives is left open (std::sort is not stable) ...
   {
-    // an element already in the set is never replaced
+    // ... but an element already in the set is never replaced by an equivalent newcomer
     const FS &f = c.s();
-    (void)f;
+    for (unsigned i = 0; i < VF_MAXM; ++i) { if (i >= f.size()) break; K x = f.begin()[i]; if (x < FS_KEYS && before.has[before.cls(x)]) vf_assert(before.rep[before.cls(x)] == x, 3003); }
   }
   vf_reach(1);
   c.finish();
@@ -464,8 +476,8 @@ OP(from_vector) {
     Vec *v = ::new (static_cast<void *>(vb)) Vec();
     Seq q;
     vf::BuildK<VCfg, FS_KIND>::run(*v, q, FS_CLS);
-    vf_assume(q.n <= 3);
-    for (unsigned i = 0; i < 3; ++i) { if (i >= q.n) break; vf_assume(q.a[i] < FS_KEYS); m.insert(q.a[i]); }
+    vf_assume(q.n <= FS_RANGE + 1);
+    for (unsigned i = 0; i < FS_RANGE + 1; ++i) { if (i >= q.n) break; vf_assume(q.a[i] < FS_KEYS); m.insert(q.a[i]); }
     const K *d0 = v->data(); bool heap = FS_KIND != 2 && vf::blk_find(d0) >= 0;
     Ctx c; c.m = m;
     if (form) { c.ps = ::new (static_cast<void *>(c.buf)) FS(std::move(*v), m.c); }
@@ -488,12 +500,12 @@ OP(from_vector) {
 #endif
 OP(ctor_range) {
   SetM m; m.c = make_cmp(); m.clear();
-  K in[3]; uint8_t n = nd8(3);
-  for (unsigned i = 0; i < 3; ++i) in[i] = ndkey();
+  K in[FS_RANGE + 1]; uint8_t n = nd8(FS_RANGE + 1);
+  for (unsigned i = 0; i < FS_RANGE + 1; ++i) in[i] = ndkey();
   {
     Ctx c; c.m = m;
     c.ps = ::new (static_cast<void *>(c.buf)) FS(static_cast<const K *>(in), static_cast<const K *>(in + n), m.c);
-    for (unsigned i = 0; i < 3; ++i) { if (i >= n) break; c.m.insert(in[i]); }
+    for (unsigned i = 0; i < FS_RANGE + 1; ++i) { if (i >= n) break; c.m.insert(in[i]); }
     c.check(false);
     c.finish();
   }
